@@ -18,7 +18,7 @@ func init() {
 			"(3) Tracker.Status is Unknown iff the buffer is empty, counts false entries, and is Unhealthy iff count/4 ≥ 0.5; " +
 			"(4) Tracker.buffer and State.trackers are accessed under their mutexes.",
 		NotCovered: []string{"sequences of arbitrary length are covered only through the copy-coverage + determinism argument", "SetStatus hydration arithmetic after restarts"},
-		Rules: c20Rules,
+		Rules:      c20Rules,
 	})
 }
 
